@@ -84,7 +84,8 @@ func (nd *node) addChild(name string, child *node) {
 
 // createDir creates a new directory.
 func (vfs *OrefaFS) createDir(parent *node, absPath, fileName string, perm fs.FileMode) *node {
-	mode := vfs.dirMode | (perm & avfs.FileModeMask &^ vfs.UMask())
+	// as mkdir(2) does, the set-user-ID and set-group-ID bits of perm are ignored, the sticky bit is kept.
+	mode := vfs.dirMode | (perm & (fs.ModePerm | fs.ModeSticky) &^ vfs.UMask())
 
 	return vfs.createNode(parent, absPath, fileName, mode)
 }
